@@ -326,7 +326,7 @@ func runC04(sc *Scenario, addrs []common.Address, tag string) *c04Run {
 	opt := ArtelaOpts{
 		ExtraAddrs: addrs,
 		Slots:      c04Slots,
-		DigestAt: digest,
+		DigestAt:   digest,
 		OnEVM: func(evm *avm.EVM, st *state.StateDB) {
 			stRef = st
 		},
